@@ -97,7 +97,9 @@ pub async fn transfer_tcp<NewContext, Context, NewCodec, Codec>(
                 let config = config.clone();
                 tokio::spawn(async move {
                     let handshake = handshake::get_request_addr(&mut inbound).await;
-                    if let Ok(peer_addr) = handshake {
+                    if handshake.as_ref().is_ok_and(|peer_addr| !peer_addr.is_representable()) {
+                        error!("[tcp] refuse target with an empty or over-long name");
+                    } else if let Ok(peer_addr) = handshake {
                         info!("[tcp] accept {}, peer={}, local={}", config.protocol, peer_addr, &local_addr);
                         match try_transfer_tcp(inbound, &peer_addr, &config, context, new_codec).await {
                             Ok(res) => info!(
@@ -223,6 +225,10 @@ where
             }
             // local->client|inbound
             Some(Ok(((content, target), sender))) = local_client.next() => {
+                if !target.is_representable() {
+                    error!("[udp] drop datagram for a target with an empty name; sender={}", sender);
+                    continue;
+                }
                 let key = new_key(sender, &target);
                 let _key = key.clone();
                 match client_server_cache.entry(key) {
